@@ -5,9 +5,11 @@ CONSTANTS
   MaxIds = 2
   Pfx = {"p", "q:"}
   Pool = {"a", "o", "z", "pz"}
-  MaxTicks = 2
+  CopyImmediates = FALSE
+  MaxEnvs = 2
+  MaxTicks = 1
   StartLibs = {1, 2, 3}
 CONSTRAINT RunConstraint
 INVARIANTS
-  MCSetsWF InstOnce DepsFirst ReadyLoaded LawBatch LawShared
+  MCSetsWF InstOnce DepsFirst ReadyLoaded LawBatch LawShared SameLocation
 CHECK_DEADLOCK FALSE
